@@ -7,7 +7,7 @@ sys.path.insert(0, os.path.join(HERE, "..", "lib"))
 sys.path.insert(0, os.path.join(HERE, "..", "gen"))
 from vcheck import *
 from c01run import *
-from c01peer import gen_peer, judge_lines
+from c01peer import gen_peer, gen_gateway, judge_lines
 
 P = "Cppcms.C01.Props."
 OBLIGATIONS = [
@@ -79,6 +79,13 @@ def gen_cases(c, scale):
             x = Case("http", "hc", segs, tag="wf-peer")
             x.peer = q
             cases.append(x)
+    for i in range(30 * scale):
+        q = gen_gateway(rng)
+        for api in ("scgi", "fastcgi"):
+            for segs in segmentations(rng, q.wires[api], 1):
+                x = Case(api, "hc", segs, tag="wf-peer-gateway")
+                x.peer = q
+                cases.append(x)
     # 30..150 variables (string_map growth) on all three front-ends; the echo reports the map and by-name lookups
     for i in range(10 * scale):
         r = gen_absreq(rng, manyvars=True)
@@ -196,6 +203,9 @@ def main():
                         res.append((x, "well-formed request (peer form) was not delivered to the application"))
                     else:
                         kv = dict(w.split("=", 1) for w in o.split()[1:])
+                        if x.api == "http" and (x.hp or hp) is None:
+                            res.append((x, "the embedded HTTP server did not answer the probe: no server parameters to judge with"))
+                            continue
                         for l in judge_lines(x.peer, x.hp or hp, kv):
                             jl.append(l); jx.append(x)
                 if x.absreq is not None:
